@@ -185,6 +185,13 @@ def build(shape, gin, lists_on='target'):
           return f(*args, **kwargs)
         return inner
       target = deco(target)
+    if shape.get('first_lists') is not None and api != 'configurable':
+      # the same object was registered under this very name before, with other lists: the later
+      # registration is the one in force
+      fl = dict(shape['first_lists'])
+      if gin_module is not None:
+        fl['module'] = gin_module
+      register(target, extra=fl)
     if shape.get('also_as') and api != 'configurable':
       # the very same function object is registered under another name first (without lists):
       # each registration is a configurable of its own, with its own bindings and lists
